@@ -63,6 +63,8 @@ impl SegmentIndexWriter {
 
     /// Append the given index record to the index file.
     pub async fn save_index(&mut self, index: Index) -> Result<(), IggyError> {
+        #[cfg(feature = "verif")]
+        let _verif = crate::verif::fs_event_on_drop("index_write", &self.file_path);
         let mut buf = [0u8; INDEX_SIZE as usize];
         buf[0..4].copy_from_slice(&index.offset.to_le_bytes());
         buf[4..8].copy_from_slice(&index.position.to_le_bytes());
